@@ -115,7 +115,7 @@ Inductive report_shape (E : env) (s : state) (n : name) (l : acct) (t t' : track
 | RS_mint amt : finalizedb t' = true -> t_type t' = T_LOCK -> x_lock (e_tx E (t_tx t')) = Some amt ->
     report_shape E s n l t t'
       {| ongoing := <[n := set_state t' S_RELEASED]> (ongoing s); passed := passed s; failed := failed s;
-         bal := credit (credit (bal s) l amt) (e_supply E) amt; log := Minted n l amt :: log s |}
+         bal := credit (credit (bal s) (t_owner t') amt) (e_supply E) amt; log := Minted n (t_owner t') amt :: log s |}
 | RS_release : finalizedb t' = true -> t_type t' = T_REDEEM ->
     report_shape E s n l t t' (upd_ongoing s (<[n := set_state t' S_RELEASED]> (ongoing s)))
 | RS_faillock : finalizedb t' = false -> failedb t' = true -> t_type t' = T_LOCK ->
@@ -186,9 +186,9 @@ Qed.
 
 Theorem mint_gated E s o s' r n a z :
   step E s o = (s', r) -> log s' = Minted n a z :: log s ->
-  exists v idx k t,
-    o = Report n a v idx true /\ r = Ok /\
-    ongoing s !! n = Some t /\ t_type t = T_LOCK /\
+  exists l v idx k t,
+    o = Report n l v idx true /\ r = Ok /\
+    ongoing s !! n = Some t /\ t_type t = T_LOCK /\ a = t_owner t /\
     idx = Z.of_nat k /\ t_wit t !! k = Some v /\ voted t v = false /\
     let t' := set_votes t (<[k := 1]> (t_votes t)) in
     yes_votes t < threshold t /\ threshold t <= yes_votes t' /\
@@ -209,7 +209,7 @@ Proof.
     destruct b.
     2:{ exfalso. unfold finalizedb, threshold, yes_votes in *. simpl in *.
         pose proof (count_insert_other 1 2 (t_votes t) k ltac:(lia)). apply Z.leb_le in Hfin'. apply Z.leb_gt in Hfin. lia. }
-    exists v, (Z.of_nat k), k, t. simpl in *.
+    exists l, v, (Z.of_nat k), k, t. simpl in *.
     unfold finalizedb in Hfin, Hfin'. apply Z.leb_gt in Hfin. apply Z.leb_le in Hfin'. simpl in *.
     repeat split; try done; try lia; try (by rewrite lookup_insert).
   - unfold do_transfer. repeat case_match; intros [= <- _]; simpl; intros Hlg; by apply list_neq_cons in Hlg.
@@ -251,16 +251,29 @@ Proof.
     rewrite Hl in Hlog. by apply list_neq_cons in Hlog.
 Qed.
 
-(* ---------- beneficiary ---------- *)
+(* ---------- beneficiary: the account that submitted the lock ---------- *)
 
-Theorem beneficiary_partial E s o s' r n a z :
-  step E s o = (s', r) -> log s' = Minted n a z :: log s -> trig_locker s o = false ->
-  exists t, ongoing s !! n = Some t /\ a = t_owner t.
+Theorem mint_to_submitter E s o s' r n a z :
+  step E s o = (s', r) -> log s' = Minted n a z :: log s ->
+  exists t, ongoing s !! n = Some t /\ t_type t = T_LOCK /\ a = t_owner t /\
+            balof (bal s') a = balof (bal s) a + z + (if decide (a = e_supply E) then z else 0).
 Proof.
-  intros Hstep Hlog Htr.
-  destruct (mint_gated _ _ _ _ _ _ _ _ Hstep Hlog) as (v & idx & k & t & -> & _ & Ht & Hty & _).
-  exists t. split; [done|]. simpl in Htr. rewrite Ht, Hty in Htr. simpl in Htr.
-  destruct (N.eqb_spec a (t_owner t)); [done|discriminate].
+  intros Hstep Hlog.
+  destruct (mint_gated _ _ _ _ _ _ _ _ Hstep Hlog) as (l & v & idx & k & t & -> & _ & Ht & Hty & -> & _ & _ & _ & Hrest).
+  destruct Hrest as (_ & _ & _ & _ & _ & _ & Hb).
+  exists t. repeat split; try done. rewrite Hb, !balof_credit.
+  destruct (decide (t_owner t = e_supply E)) as [->|Hne]; rewrite ?decide_True by done; lia.
+Qed.
+
+(* runLock records the sender as the owner *)
+Theorem lock_records_sender E s a x s' :
+  do_lock E s a x = (s', Ok) ->
+  ongoing s' !! x_name (e_tx E x) = Some (new_tracker T_LOCK a x (x_name (e_tx E x)) (e_wits E)) /\
+  ongoing s !! x_name (e_tx E x) = None /\ passed s !! x_name (e_tx E x) = None.
+Proof.
+  unfold do_lock. destruct (x_lock (e_tx E x)); [|done]. destruct (negb _); [done|].
+  destruct (has (ongoing s) _) eqn:Ho; simpl; [done|]. destruct (has (passed s) _) eqn:Hp; simpl; [done|].
+  intros [= <-]. simpl. apply has_false in Ho, Hp. by rewrite lookup_insert.
 Qed.
 
 (* ---------- redeem: the debit and the creation of the tracker are one step ---------- *)
@@ -317,12 +330,11 @@ Proof.
   - unfold do_lock. repeat case_match; intros [= <- _]; done.
   - apply N.eqb_neq in Htr. unfold do_redeem. repeat case_match; intros [= <- _]; try done. simpl.
     rewrite !tot_credit, !balof_credit. rewrite decide_True by done. rewrite decide_False by done. lia.
-  - apply orb_false_iff in Htr as [Hl Hown]. apply N.eqb_neq in Hl.
-    intros Hstep. apply report_cases in Hstep as [->|(t & t' & Ht & _ & _ & Hav & _ & Hsh)]; [done|].
-    rewrite Ht in Hown. apply N.eqb_neq in Hown.
+  - intros Hstep. apply report_cases in Hstep as [->|(t & t' & Ht & _ & _ & Hav & _ & Hsh)]; [done|].
+    rewrite Ht in Htr. apply N.eqb_neq in Htr.
     apply add_vote_fields in Hav as (_ & _ & _ & _ & _ & Ho & _).
     inversion Hsh; subst; simpl; try done.
-    + rewrite !tot_credit, !balof_credit. rewrite decide_True by done. rewrite decide_False by done. lia.
+    + rewrite !tot_credit, !balof_credit. rewrite decide_True by done. rewrite decide_False by congruence. lia.
     + rewrite !tot_credit, !balof_credit. rewrite decide_True by done. rewrite decide_False by congruence. lia.
   - apply orb_false_iff in Htr as [Hf Ht]. apply N.eqb_neq in Hf, Ht.
     unfold do_transfer. repeat case_match; intros [= <- _]; try done. simpl.
@@ -634,4 +646,77 @@ Proof.
   { clear ops. induction ops as [|o r IH]; intros s Hs; [done|]. simpl. apply IH.
     destruct (step E s o) as [s' out] eqn:Hstep. simpl. by eapply refund_once_step. }
   apply H. split; [intros n Hn; simpl in Hn; by apply elem_of_nil in Hn|simpl; constructor].
+Qed.
+
+(* the recorded fields of an ongoing tracker never change *)
+Definition same_record (t t' : tracker) : Prop :=
+  t_type t' = t_type t /\ t_name t' = t_name t /\ t_tx t' = t_tx t /\ t_wit t' = t_wit t /\ t_owner t' = t_owner t.
+
+Lemma transition_back nl s n s' r m t' :
+  transition nl s n = (s', r) -> ongoing s' !! m = Some t' ->
+  exists t, ongoing s !! m = Some t /\ same_record t t'.
+Proof.
+  intros Htr Hm. apply transition_cases in Htr as [->|(t & Ht & Hc)]; [by exists t'|].
+  destruct (decide (m = n)) as [->|Hne].
+  - destruct Hc as [(X & _ & ->)|[[_ ->]|[_ ->]]]; simpl in Hm.
+    + rewrite lookup_insert in Hm. injection Hm as <-. by exists t.
+    + by rewrite lookup_delete in Hm.
+    + by rewrite lookup_delete in Hm.
+  - destruct Hc as [(X & _ & ->)|[[_ ->]|[_ ->]]]; simpl in Hm;
+      rewrite ?lookup_insert_ne, ?lookup_delete_ne in Hm by done; by exists t'.
+Qed.
+
+Lemma end_block_back nl names : forall s s' r m t',
+  end_block nl s names = (s', r) -> ongoing s' !! m = Some t' ->
+  exists t, ongoing s !! m = Some t /\ same_record t t'.
+Proof.
+  induction names as [|n rest IH]; intros s s' r m t'; simpl; [intros [= <- _] Hm; by exists t'|].
+  destruct (transition nl s n) as [s1 o1] eqn:H1. destruct (end_block nl s1 rest) as [s2 o2] eqn:H2.
+  intros [= <- _] Hm. destruct (IH _ _ _ _ _ H2 Hm) as (t1 & Ht1 & Hs1).
+  destruct (transition_back _ _ _ _ _ _ _ H1 Ht1) as (t & Ht & Hs). exists t. split; [done|].
+  unfold same_record in *. intuition congruence.
+Qed.
+
+Theorem record_stable E s o s' r n t t' :
+  step E s o = (s', r) -> ongoing s !! n = Some t -> ongoing s' !! n = Some t' -> same_record t t'.
+Proof.
+  destruct o as [snd x|snd x|n0 l v idx b|f t0 amt|nl names]; simpl; intros Hstep Ht Ht'.
+  - unfold do_lock in Hstep. destruct (x_lock (e_tx E x)); [|injection Hstep as <- _; rewrite Ht in Ht'; by injection Ht' as <-].
+    destruct (negb _); [injection Hstep as <- _; rewrite Ht in Ht'; by injection Ht' as <-|].
+    destruct (has (ongoing s) _) eqn:Ho; simpl in Hstep; [injection Hstep as <- _; rewrite Ht in Ht'; by injection Ht' as <-|].
+    destruct (has (passed s) _) eqn:Hp; simpl in Hstep; [injection Hstep as <- _; rewrite Ht in Ht'; by injection Ht' as <-|].
+    injection Hstep as <- _. simpl in Ht'. apply has_false in Ho.
+    destruct (decide (n = x_name (e_tx E x))) as [->|Hne]; [congruence|].
+    rewrite lookup_insert_ne in Ht' by done. rewrite Ht in Ht'. by injection Ht' as <-.
+  - unfold do_redeem in Hstep. destruct (x_redeem (e_tx E x)); [|injection Hstep as <- _; rewrite Ht in Ht'; by injection Ht' as <-].
+    destruct (_ <? 0); [injection Hstep as <- _; rewrite Ht in Ht'; by injection Ht' as <-|].
+    destruct (_ <? 0); [injection Hstep as <- _; rewrite Ht in Ht'; by injection Ht' as <-|].
+    destruct (has (ongoing s) _) eqn:Ho; simpl in Hstep; [injection Hstep as <- _; rewrite Ht in Ht'; by injection Ht' as <-|].
+    destruct (has (failed s) _) eqn:Hf; simpl in Hstep; [injection Hstep as <- _; rewrite Ht in Ht'; by injection Ht' as <-|].
+    destruct (has (passed s) _) eqn:Hp; simpl in Hstep; [injection Hstep as <- _; rewrite Ht in Ht'; by injection Ht' as <-|].
+    injection Hstep as <- _. simpl in Ht'. apply has_false in Ho.
+    destruct (decide (n = x_name (e_tx E x))) as [->|Hne]; [congruence|].
+    rewrite lookup_insert_ne in Ht' by done. rewrite Ht in Ht'. by injection Ht' as <-.
+  - apply report_cases in Hstep as [->|(t1 & t1' & Ht1 & _ & _ & Hav & _ & Hsh)]; [rewrite Ht in Ht'; by injection Ht' as <-|].
+    apply add_vote_fields in Hav as (Hty & _ & Hnm & Htx & Hw & Hown & _).
+    destruct (decide (n = n0)) as [->|Hne].
+    + rewrite Ht in Ht1. injection Ht1 as <-.
+      inversion Hsh; subst; simpl in Ht'; rewrite lookup_insert in Ht'; injection Ht' as <-; done.
+    + inversion Hsh; subst; simpl in Ht'; rewrite lookup_insert_ne in Ht' by done; rewrite Ht in Ht'; by injection Ht' as <-.
+  - unfold do_transfer in Hstep. repeat case_match; injection Hstep as <- _; simpl in Ht'; rewrite Ht in Ht'; by injection Ht' as <-.
+  - destruct (end_block_back _ _ _ _ _ _ _ Hstep Ht') as (t1 & Ht1 & Hs). rewrite Ht in Ht1. by injection Ht1 as <-.
+Qed.
+
+
+(* ---------- ERC-20 lock (store effect): safe only when the name is in no store ---------- *)
+
+Theorem erc_lock_partial E okf s a x s' r :
+  trig_erc_relock E s x = false -> stores_disjoint s -> do_lock_erc E okf s a x = (s', r) -> stores_disjoint s'.
+Proof.
+  unfold trig_erc_relock, do_lock_erc. intros Htr [D1 D2].
+  apply orb_false_iff in Htr as [Htr Hf]. apply orb_false_iff in Htr as [Ho Hp].
+  apply has_false in Ho, Hp, Hf.
+  destruct (negb (okf x)); intros [= <- _]; [by split|]. split; simpl; [|done].
+  intros n0 Hs. destruct (decide (n0 = x_name (e_tx E x))) as [->|Hne]; [done|].
+  rewrite lookup_insert_ne in Hs by done. by apply D1.
 Qed.
